@@ -1,5 +1,6 @@
 """C08 - agent kinematics (engine: gvsim.sim, profile `kinematics`).  DESIGN.md section 5."""
 from gvsim import model as M
+from gvsim import worlds as W
 from gvsim.kernel import stream
 from gvsim.lib import blocks_movement
 from gvsim.props import common
@@ -8,7 +9,7 @@ from gvsim.worlds import world_is_valid_start
 
 PROP = 'C08'
 TIERS = {'quick': {'runs': 2400, 'wall': 100}, 'thorough': {'runs': 60000, 'wall': 1500}}
-REACH = ['move_off_top', 'move_off_left', 'move_off_bottom', 'move_off_right', 'move_blocked_by_Box', 'move_blocked_by_Door', 'teleport_fired', 'turn_pattern', 'pose_scan', 'knob:nested_chain', 'knob:long_strip', 'knob:two_nested_chains', 'knob:maze', 'action_given_as_index']  # probes / faults that must fire in every batch (reach gaps are reported in the evidence)
+REACH = ['move_off_top', 'move_off_left', 'move_off_bottom', 'move_off_right', 'move_blocked_by_Box', 'move_blocked_by_Door', 'teleport_fired', 'turn_pattern', 'pose_scan', 'knob:nested_chain', 'knob:long_strip', 'knob:two_nested_chains', 'knob:maze', 'action_given_as_index', 'knob:yaml_reordered_actions']  # probes / faults that must fire in every batch (reach gaps are reported in the evidence)
 RULE = ('one run = one client (random composition of built-in components over a free-form world without '
         'mandatory boundary, or a shipped YAML configuration) driven by a seeded op list (stateful steps, '
         'functional steps on pool states for all actions, edge-hugging / object-seeking guided policies, turn '
@@ -24,7 +25,7 @@ def generate(seed, run, tier):
     rec = common.base_record(PROP, seed, run, tier)
     rec['debug'] = r.random() < 0.5
     big = tier == 'thorough'
-    spec = common.pick_client(r, p_yaml=0.25, hmax=8 if big else 6, wmax=8 if big else 6)
+    spec = W.reorder_yaml_actions(common.pick_client(r, p_yaml=0.25, hmax=8 if big else 6, wmax=8 if big else 6))
     rec['clients'] = [spec]
     n = r.randint(30, 120 if not big else 300)
     rec['ops'] = common.world_ops(r, spec, n, weights=dict(fobs=0, read_obs=0.2, turnpair=0.8))
